@@ -12,6 +12,7 @@ pub mod sched_hooks;
 pub mod subject;
 pub mod sup;
 pub mod track;
+pub mod budget;
 pub mod types;
 
 use std::collections::BTreeSet;
@@ -116,8 +117,9 @@ pub fn cli_main() {
             let dir = PathBuf::from(arg(&args, "--dir").expect("--dir"));
             let open: BTreeSet<String> = arg(&args, "--open").unwrap_or("").split(',').filter(|s| !s.is_empty()).map(|s| s.to_string()).collect();
             let nworkers: u64 = arg(&args, "--nworkers").and_then(|s| s.parse().ok()).unwrap_or(1);
+            budget::init(arg(&args, "--soft").and_then(|s| s.parse().ok()));
             let wa = engine::WorkerArgs { prop, thorough, seed, idx, nworkers, cases, dir: dir.clone(), open_findings: open };
-            let res = match eng.as_str() {
+            let mut res = match eng.as_str() {
                 "seq" => engine::seq_worker(&wa),
                 "sketch" => comp_sketch::sketch_worker(&wa),
                 "cfg" => cfg_engine::cfg_worker(&wa),
@@ -130,6 +132,9 @@ pub fn cli_main() {
                 }
                 other => panic!("unknown engine {other}"),
             };
+            if budget::skipped() > 0 {
+                res.classes.insert("generated_cases_not_run_because_the_time_budget_was_used_up".into(), budget::skipped());
+            }
             engine::write_result(&dir, idx, &res);
         }
         "replay" => {
